@@ -1,5 +1,5 @@
 """Prose for MANIFEST.json (kept apart from the registry)."""
-SOURCE_COMMITS = []
+SOURCE_COMMITS = []  # no hook commits; /repo carries only "fix:" commits (see KNOWN_FINDINGS.txt)
 TECH_DEFAULT = "bounded model checking of the real code: Kani/CBMC harnesses over kani::any() inputs + SMT (z3) symbolic execution of the crate's MIR; verdict = solver answer within stated bounds"
 LEVEL_DEFAULT = ("Bounded: every harness/obligation is decided by a SAT/SMT solver for all values of its symbolic inputs within the "
                  "stated sizes (vector lengths, byte counts, unwinding), from an arbitrary invariant-satisfying pre-state (one inductive "
@@ -12,7 +12,7 @@ TECHNIQUE = {}
 NOT_APPLICABLE = {
     "C08": "concurrency: Kani executes one thread and cannot compile tokio's task code to a checkable program; Engine M summarises locks away, which is exactly what this property is about (DESIGN.md §3 C08)",
 }
-for _p in ["C03", "C04", "C05", "C06", "C07", "C09", "C10", "C11", "C12", "C13", "C14", "C15", "C16", "C17"]:
+for _p in ["C05", "C06", "C07", "C09", "C10", "C15", "C16", "C17"]:
     NOT_APPLICABLE.setdefault(_p, "check under construction in this round (see DESIGN.md §3); not claimed until its obligations run green")
 NOTES = ("All checks rebuild from /repo's working tree: Engine K copies it and runs cargo-kani on the copy; Engine M dumps MIR of a copy with the "
          "nightly toolchain. exit 0 = all decided and held; exit 1 + VIOLATION = a solver counterexample; exit 2 = inconclusive (timeout, construct "
